@@ -6,7 +6,9 @@ name = sys.argv[1]; checks = sys.argv[2:]
 d = os.path.join("/verif/seeded", name)
 st = subprocess.run("git -C /repo status --porcelain", shell=True, capture_output=True, text=True).stdout.strip()
 assert st == "", "repo not clean: " + st
-rc = subprocess.run("git -C /repo apply " + os.path.join(d, "patch.diff"), shell=True).returncode
+rc = subprocess.run("git -C /repo apply " + os.path.join(d, "patch.diff"), shell=True, capture_output=True).returncode
+if rc != 0:
+    rc = subprocess.run("git -C /repo apply -C1 " + os.path.join(d, "patch.diff"), shell=True).returncode
 assert rc == 0
 res = {}
 try:
